@@ -12,7 +12,8 @@
  *   ffz a b | ffs a b
  *   get_range s n | set_range s n <bits as 0/1 string>     (s, n in bitmap units, as rw_bitmaps.c passes them)
  *   clear | copy | set_padding | resize <new_end> <new_real_end>
- *   cmp b            compare the bitmap with a copy in which bit b (bitmap units) was flipped; cmp -1: unmodified copy
+ *   cmp b            compare the bitmap with a copy in which bit b (bitmap units) was flipped; cmp -1: unmodified copy;
+ *                    cmp -2: copy with set_padding applied (same set, different padding)
  */
 #include <stdio.h>
 #include <stdlib.h>
@@ -247,6 +248,9 @@ int main(void)
 				if (a >= 0) {
 					if (ext2fs_test_generic_bmap(n, a << cbits)) ext2fs_unmark_generic_bmap(n, a << cbits);
 					else ext2fs_mark_generic_bmap(n, a << cbits);
+				} else if (a == -2) {
+					/* same set, different padding: padding is not part of the set */
+					ext2fs_set_generic_bmap_padding(n);
 				}
 				r = ext2fs_compare_generic_bmap(77, bm[i], n);
 				printf("%s%d", i ? "," : "", r == 0 ? 0 : r == 77 ? 1 : -2);
